@@ -68,6 +68,10 @@ KERNEL_OPS = {
 }
 
 
+# the integer-log10 chain behind magnitude (function keys are the bare names u8 .. u128)
+EXACT_OPS = {k: [('magnitude', ALL_DEC, None), ('try_from_float', ('f64',), None)] for k in ('u8', 'u16', 'u32', 'u64', 'u128', 'less_than_5')}
+
+
 def kind_of_type(t):
     t = t.strip()
     t = re.sub(r"^&\s*('[a-z_]+\s+)?", '', t)
@@ -108,6 +112,8 @@ def ops_for(fn):
                 if trait == 'PartialOrd':
                     out += [(o, (lk,), (rk,)) for o in ('lt', 'le', 'gt', 'ge')]
                 return out
+    if fn in EXACT_OPS:
+        return list(EXACT_OPS[fn])
     out = []
     for pre, ops in KERNEL_OPS.items():
         if fn.startswith(pre) or (pre in fn):
@@ -191,7 +197,8 @@ def aligned_pairs(lk, rk, rng):
         for s in sorted(set((0, 18 - k))):
             p = 10 ** k
             coarse = [10 ** (38 - k), 10 ** (38 - k) - 1, 12 * 10 ** (37 - k), 15 * 10 ** (37 - k), 17 * 10 ** (37 - k), mx // p, mx // p + 1,
-                      2 * 10 ** (38 - k), 10 ** (37 - k), 10 ** (37 - k) + 3]
+                      2 * 10 ** (38 - k), 10 ** (37 - k), 10 ** (37 - k) + 3,
+                      5 * 10 ** (38 - k), 9 * 10 ** (38 - k), (2 ** 128) // p, (2 ** 128) // p + 1, 34 * 10 ** (37 - k), 35 * 10 ** (37 - k)]
             for c in coarse:
                 fine = [1, 0, 7, 10 ** 37, 15 * 10 ** 37, 12 * 10 ** 37, mx, mx - 1, 10 ** 38, 10 ** 38 + 7]
                 if c * p <= mx:
@@ -221,7 +228,15 @@ def operands(kind, rng, budget):
         # keep the classic small cases first
         head = ['d:%d:%d' % (c, n) for c in (0, 1, -1, 5, -5, 10, 101, -101, 15, 25, 505, 100, oracle.I128_MAX, -oracle.I128_MAX)
                 for n in (0, 1, 2, 18)]
-        return (head + out)[:budget]
+        # bounds of the primitive integer types (and their neighbours) in several representations
+        for b in (8, 16, 32, 64):
+            for v in (2 ** (b - 1) - 1, -2 ** (b - 1), 2 ** (b - 1), -2 ** (b - 1) - 1, 2 ** b - 1, 2 ** b, 2 ** b + 17):
+                for n in (0, 1, 2, 18):
+                    if abs(v) * 10 ** n <= oracle.I128_MAX:
+                        head.append('d:%d:%d' % (v * 10 ** n, n))
+                        if n:
+                            head.append('d:%d:%d' % (v * 10 ** n + (5 if v > 0 else -5) * 10 ** (n - 1), n))
+        return (head + out)[:max(budget, len(head) + 200)]
     if kind in oracle.INT_RANGES:
         lo, hi = oracle.INT_RANGES[kind]
         if kind == 'i128':
@@ -242,7 +257,10 @@ def operands(kind, rng, budget):
                 '340282366920938463463374607431768211455', '100000000000000000000000000000000000000',
                 '99999999999999999999999999999999999999', '1' + '0' * 60, '9' * 80, '0.' + '0' * 17 + '1', '0.' + '0' * 18 + '1',
                 '17014118346046923173168730371588410572.7', '1.70141183460469231731687303715884105727e38',
-                '1e99999999999999999999', '1e-99999999999999999999', '0e99999999999999999999', '1.5e1', '15e-1', '١', '1é']
+                '1e99999999999999999999', '1e-99999999999999999999', '0e99999999999999999999',
+                '1.5e-99999999999999999999', '.5e-99999999999999999999', '0.00e-9223372036854775807', '1.5e-9223372036854775808',
+                '1.5e9223372036854775807', '15e-18446744073709551616', '1.5e-18446744073709551617', '0.1e-9223372036854775790',
+                '1.5e-170141183460469231731687303715884105728', '2.50e-340282366920938463463374607431768211456', '1.5e1', '15e-1', '١', '1é']
         for _ in range(40):
             k = rng.choice([1, 5, 18, 19, 37, 38, 39, 40, 41, 77])
             ds = ''.join(rng.choice('0123456789') for _ in range(k))
@@ -264,6 +282,12 @@ def operands(kind, rng, budget):
                     bits.append(struct.unpack('<Q', struct.pack('<d', sgn * m / 2.0 ** k))[0])
         for v in (6e-19, -7e-19, 5.0000000000000001e-19, 4.9999999999999999e-19, 8.6e-19, 1.5e-18, 2.5e-18):
             bits.append(struct.unpack('<Q', struct.pack('<d', v))[0])
+        # every binary exponent from the subnormal boundary of the 18-digit range up to beyond the i128 range
+        # (a wrong shift bound shows only in one binade)
+        for e in range(1023 - 75, 1023 + 260):
+            for frac in (0, 1, (1 << 51), (1 << 52) - 1):
+                bits.append((e << 52) | frac)
+                bits.append((1 << 63) | (e << 52) | frac)
         for _ in range(60):
             bits.append(rng.getrandbits(64))
             e = rng.randint(1023 - 70, 1023 + 130)
@@ -276,6 +300,10 @@ def operands(kind, rng, budget):
             for m in (1, 3, 5, 7, 2 ** 19 + 1, 2 ** 20 + 3):
                 for sgn in (1.0, -1.0):
                     bits.append(struct.unpack('<I', struct.pack('<f', sgn * m / 2.0 ** k))[0])
+        for e in range(127 - 75, 255):
+            for frac in (0, 1, (1 << 22), (1 << 23) - 1):
+                bits.append((e << 23) | frac)
+                bits.append((1 << 31) | (e << 23) | frac)
         for _ in range(60):
             bits.append(rng.getrandbits(32))
         return ['f32:%d' % b for b in bits]
